@@ -43,7 +43,11 @@ RULE = ("histories = one Model; agents of 3 classes (a plain one; Agent + a mixi
         "nothing else refers to (copy.copy(set), set.select()), on model.agents, agents_by_type[c] or a program-made set, or through "
         "groupby(...).do/map (AgentSet groups, by method name or callable at both levels), groupby(result_type='list').do/map(callable), "
         "groupby(...).count()/agg(); `method` is given as str, str subclass, function, callable object, functools.partial, by keyword, "
-        "or as an unknown method name (rejected call, history continues); every call also carries the keyword xv = None / float / inf / "
+        "a bound method of another object, a plain function taken from a class, or as an unknown method name (rejected call, history "
+        "continues); the Model is a subclass overriding register_agent/deregister_agent (calling super()); agents of class K1/K2 assign "
+        "their own colliding unique_id after Agent.__init__, K2 has value-based __eq__/__hash__ and is iterable; callbacks raise subclasses "
+        "of StopIteration, GeneratorExit, IndexError, KeyError, AttributeError, TypeError, RuntimeError, ... which the caller (or an "
+        "enclosing callback) catches, after which the history continues (user code is passed to the model as explicit script acts); every call also carries the keyword xv = None / float / inf / "
         "str / nested tuple / bool / ints beyond 2^63 / list / dict / set / Decimal / Fraction / numpy scalars and arrays / bytes / empty "
         "values, which must arrive as the same object, unchanged; per-agent scripts do nothing / remove self / remove an earlier, later or "
         "dead agent (reference kept or not) / create agents / drop or take references / raise / start a nested do, shuffle_do or map "
@@ -118,7 +122,7 @@ def _rand_act(rng, ids_hint, self_id=None, order=None, level=None):
     if level is not None and level >= 2 and rng.random() < 0.10:
         return [rng.choice(["nested", "trynested"]), rng.choice(["do", "map"]), _rand_sref(rng)]
     if level is not None and rng.random() < (0.05 if level == 1 else 0.08):
-        return ["raise"]
+        return ["raise", rng.randrange(13)]
     if r < 0.22:
         return ["nop"]
     if r < 0.40:
@@ -229,7 +233,7 @@ def _rand_case(rng, big=False):
                 kind = "shuffle_then_do"
             elif r2 < 0.22:
                 kind = "copy_" + kind
-            ops.append(["activate", kind, rng.choice(["name", "callable", "name", "callable", "strsub", "callobj", "partial", "kwmethod", "badname"]),
+            ops.append(["activate", kind, rng.choice(["name", "callable", "name", "callable", "strsub", "callobj", "partial", "bound", "unbound", "kwmethod", "badname"]),
                         sref, script, args, kwargs, script2])
         # rough update of the shadow: count creations, forget removals (ids stay plausible targets)
         for _, acts in script + [x for sc in script2 for x in sc]:
@@ -437,13 +441,23 @@ def _env():
 
     ctx = {"cur": None}
 
-    def _make(name, bases=None, extra=None):
+    import itertools as _it
+
+    keyctr = _it.count(1)
+
+    def _make(name, bases=None, extra=None, reassign=False, keyed=False):
         extra = extra or {}
 
         def __init__(self, model):
+            if keyed:
+                self._key = next(keyctr)      # set BEFORE registration: __hash__ must not change while the agent is a dict key
             mesa.Agent.__init__(self, model)
             # the driver's name of the agent: unique_id in the main model, 1000 + unique_id in a second model
             self._hid = self.unique_id + getattr(model, "_hid_base", 0)
+            if reassign:
+                # the Mesa-2 idiom: the model's own id is assigned after super().__init__ - ids that collide with each other
+                # and with the automatic ones
+                self.unique_id = self._hid % 3 + 1
             self.g1 = 0
             self.g2 = self._hid % 2
             self.g3 = self._hid % 3
@@ -461,10 +475,30 @@ def _env():
 
     # K0: a plain agent class; K1: Agent + mixin, instances are falsy (`if agent:` is not `agent is not None`);
     # K2: a subclass of K1 (a subclass of a subclass of Agent) that also has len() == 0.  agents_by_type is by EXACT class.
+    # K1 also assigns its own unique_id after Agent.__init__; K2 also has value-based __eq__ / __hash__ (on a key set before
+    # registration, distinct per agent) and is iterable (empty).
     k0 = _make("K0")
-    k1 = _make("K1", (mesa.Agent, Falsy))
-    k2 = _make("K2", (k1,), {"__len__": lambda self: 0})
+    k1 = _make("K1", (mesa.Agent, Falsy), reassign=True)
+    k2 = _make("K2", (k1,), {"__len__": lambda self: 0, "__iter__": lambda self: iter(()),
+                             "__eq__": lambda self, other: type(other) is type(self) and other._key == self._key,
+                             "__hash__": lambda self: hash(("K2", self._key))}, reassign=True, keyed=True)
     classes = [k0, k1, k2]
+
+    class HookModel(mesa.Model):
+        """a Model subclass overriding the public registration hooks (calling super())"""
+
+        def __init__(self, *a, **k):
+            self.n_reg = 0
+            self.n_dereg = 0
+            super().__init__(*a, **k)
+
+        def register_agent(self, agent):
+            super().register_agent(agent)
+            self.n_reg += 1
+
+        def deregister_agent(self, agent):
+            super().deregister_agent(agent)     # KeyError when not registered (Agent.remove suppresses it)
+            self.n_dereg += 1
 
     class RecRandom(random.Random):
         """random.Random that records what shuffle did (ids of the referents before and after)"""
@@ -486,7 +520,7 @@ def _env():
 
     gc.collect()
     gc.freeze()
-    _ENV.update(ctx=ctx, classes=classes, RecRandom=RecRandom, mesa=mesa)
+    _ENV.update(ctx=ctx, classes=classes, RecRandom=RecRandom, mesa=mesa, HookModel=HookModel)
     return _ENV
 
 
@@ -506,6 +540,13 @@ class _CallObj:
 
 class _Boom(Exception):
     """what a scripted callback raises"""
+
+
+# ... and the same as subclasses of the "control-flow" exception types (the subclass lets the driver tell its own exceptions
+# from the library's by TYPE)
+_BOOMS = (_Boom,) + tuple(type("_Boom" + t.__name__, (t,), {}) for t in
+                          (StopIteration, GeneratorExit, IndexError, KeyError, AttributeError, TypeError, RuntimeError, ValueError,
+                           LookupError, ArithmeticError, AssertionError, OSError))
 
 
 def _scripts(x):
@@ -533,7 +574,7 @@ class _Run:
 
         mesa = env["mesa"]
         self.env = env
-        self.model = mesa.Model(seed=7)
+        self.model = env["HookModel"](seed=7)
         self.model.random.__class__ = env["RecRandom"]
         self.wv = weakref.WeakValueDictionary()
         self.ext = []            # the program's references (real ones)
@@ -548,6 +589,7 @@ class _Run:
         self.strong = set()      # ids held by a strong container of the program (GroupBy with lists)
         self.strong_forever = set()   # ids held by an abandoned iterator of the program
         self.iters = []
+        self.foreign = set()     # ids of the agents of a second model
         self.models = []         # further models (their agents are named 1000 + unique_id)
         self.calls = []          # (uid, event index, args, kwargs, held_by_program) of the activation in progress
         self.nlog = []           # observation of nested activations
@@ -603,7 +645,7 @@ class _Run:
             if me is not None:
                 self.events.append(["raise", me._hid, None])
                 self.pending = True
-                raise _Boom()
+                raise _BOOMS[(a[1] if len(a) > 1 else 0) % len(_BOOMS)]()
         elif k in ("nested", "trynested"):
             # allowed while there is a script for the agents it would call; below the outermost level only do / map
             # (an inner callback may run several times, a recorded permutation could not be attached to the act)
@@ -655,11 +697,13 @@ class _Run:
         form = (where[1] + where[2]) % 2
         nlevel = self.depth
         target = "act" if form else (lambda agent, /, *a, **k: self.call(agent, a, k))
+        boom = None
         try:
             res = getattr(s, akind)(target, tok=None, xv=None)
             del res
-        except _Boom:
+        except _BOOMS as e:
             raised = True
+            boom = type(e)       # only the type: keeping the exception would keep its traceback, i.e. the frames and their agents, alive (a cycle)
         rec, calls = ctx["rec"], self.calls
         ctx["rec"], self.calls = outer_rec, outer_calls
         log = [c[0] for c in calls]
@@ -683,8 +727,9 @@ class _Run:
                     e[2] = nlevel
             self.pending = False
             self.nlog += [-36]
+            boom = None
         elif raised:
-            raise _Boom()
+            raise boom()
 
     # --- observation
     def resolve(self, sref):
@@ -952,6 +997,8 @@ def _run_impl(env, case):
                     rec = ctx["rec"] = []
                     fn = (lambda agent, /, *a, **k: run.call(agent, a, k))
                     target = {"name": "act", "strsub": _StrSub("act"), "callobj": _CallObj(fn), "partial": functools.partial(fn),
+                              "bound": _CallObj(fn).__call__,             # a bound method of another object
+                              "unbound": env["classes"][0].act,          # a plain function taken from a class
                               "badname": "no_such_method"}.get(form, fn)
                     raised = False
                     res = None
@@ -965,7 +1012,7 @@ def _run_impl(env, case):
                             res = getattr(s, akind)(method=target, tok=token, xv=xv, **kw)      # the same call, spelled with a keyword
                         else:
                             res = getattr(s, akind)(target, *args, tok=token, xv=xv, **kw)
-                    except _Boom:
+                    except _BOOMS:
                         raised = True
                     except AttributeError as e:
                         if form != "badname":
@@ -1076,7 +1123,7 @@ def _run_impl(env, case):
                             res = getattr(gb, outer[:-9])(lambda grp, /, *a, **k: getattr(grp, akind)(inner, *a, **k), *args, tok=token, xv=xv, **kw)
                         else:
                             res = getattr(gb, outer)(akind, "act", *args, tok=token, xv=xv, **kw)
-                    except _Boom:
+                    except _BOOMS:
                         raised = True
                     outer = outer.split("-")[0]
                     ctx["rec"] = None
@@ -1181,7 +1228,7 @@ def _run_impl(env, case):
                     try:
                         xv = _exotic(opi + 7)
                         res = getattr(gb, outer)(lambda grp, /, *a, **k: [run.call(agent, a, k) for agent in grp], *args, tok=token, xv=xv, **kw)
-                    except _Boom:
+                    except _BOOMS:
                         raised = True
                     calls = run.calls
                     run.levels = []
@@ -1268,13 +1315,14 @@ def _run_impl(env, case):
                 _, n, order = op
                 mesa = env["mesa"]
                 if not run.models:
-                    other = mesa.Model(seed=11)
+                    other = env["HookModel"](seed=11)
                     other._hid_base = 1000
                     run.models.append(other)
                 other = run.models[0]
                 for _ in range(max(0, min(int(n), 4))):
                     ag = env["classes"][0](other)
                     run.wv[ag._hid] = ag
+                    run.foreign.add(ag._hid)
                     run.registered.add(ag._hid)
                     run.created_at[ag._hid] = len(run.events)
                     run.events.append(("create", ag._hid))
@@ -1300,6 +1348,12 @@ def _run_impl(env, case):
                              "what": f"{op} raised {type(e).__name__}: {e}"})
         ops_for_model.append(mop)
     ctx["cur"] = None
+    n_created = sum(1 for e in run.events if e[0] == "create" and e[1] not in run.foreign)
+    n_removed = sum(1 for e in run.events if e[0] == "rm" and e[1] not in run.foreign)
+    if run.model.n_reg != n_created or run.model.n_dereg != n_removed:
+        failures.append({"key": "C04/hooks/registration-hook-calls", "op": len(case["ops"]) - 1,
+                         "what": f"Model.register_agent was called {run.model.n_reg} times for {n_created} agents created, "
+                                 f"deregister_agent completed {run.model.n_dereg} times for {n_removed} effective removals"})
     # Agent._ids is a class-level dict keyed by model: forget this model so that it can be freed
     env["mesa"].Agent._ids.pop(run.model, None)
     for other in run.models:
